@@ -7,6 +7,8 @@ NOTES = (
     "exit 2 for machinery failures. Known findings: KNOWN_FINDINGS.txt."
 )
 ENGINES = [
+    {"name": "Scope", "path": "spec/Scope.tla", "serves_properties": ["C10"],
+     "kind_free_text": "identifier normalisation over case classes x strategies (Idempotent, Untouched as ASSUMEs checked by TLC), the scoping rules, and the generator of query skeletons; QualifyTrace.tla is the acceptor for recorded qualify() runs"},
     {"name": "ErrLevel", "path": "spec/ErrLevel.tla", "serves_properties": ["C14"],
      "kind_free_text": "four lock-step copies of the parser's error-reporting machine (one per ErrorLevel) over a common event stream; Mutate.tla generates inputs; ErrTrace.tla relates the four recorded runs"},
     {"name": "Cursor", "path": "spec/Cursor.tla", "serves_properties": ["C05"],
@@ -29,6 +31,13 @@ ENGINES = [
      "kind_free_text": "TLA+ model of the mutable Expression tree (node store, every branch of set/append/replace/pop, hash cache, deepcopy); TLC exhaustive + transition emission; AstTrace.tla evaluates the invariants on recorded real trees"},
 ]
 CHECKS = {
+    "C10": {
+        "engine": "Scope",
+        "design_ref": "DESIGN.md section 5, C10",
+        "technique": "TLA+ identifier-normalisation model checked by TLC; TLC-enumerated query skeletons rendered per dialect; qualify() outputs projected by an independent scope traversal and validated by the TLA+ acceptor QualifyTrace",
+        "text": "The full product of skeleton features (11 shapes incl. three that must be rejected, qualification level, 7 star variants, 6 ORDER BY variants, GROUP BY variants, USING, 4 identifier-case variants, schema depth 1-3: ~10^5 skeletons) x 12 dialects covering all normalisation strategies; a sixth per quick run (~9*10^3 qualify runs), all in thorough. Clauses: must-reject queries raise OptimizeError; every table aliased; every column's qualifier visible at its position or an exact output-name reference in ORDER BY; star expansions equal the qualified hand-expanded query; output names kept; qualify twice = once; normalize_identifiers idempotent and identity on case-sensitive identifiers (13 spellings x quoted x 34 dialects).",
+        "note": "Trusted: the independent scope traversal in props/c10.analyse and the skeleton renderer. Stars under USING and EXCEPT/REPLACE over duplicate column names are excluded (not well defined).",
+    },
     "C14": {
         "engine": "ErrLevel",
         "design_ref": "DESIGN.md section 5, C14",
